@@ -595,6 +595,67 @@ theorem metadata_read_back (C : Crypto) (key : C.Key) (trust : C.Pub → Bool)
       cases kvLookup k i.metadata <;> simp [kvLookup]
   · simp [hl, noSignature] at hv
 
+/-! ### reused signer and verifier objects: the history does not matter -/
+
+/-- the only thing a signer object remembers between calls is the plugin's manifest annotations
+(regenerated: every write to a receiver field in signer/signer.go and signer/plugin.go) - in
+particular no key spec, hash or descriptor is cached -/
+theorem facts_signer_state :
+    c07SignerFieldWrites = [("PluginSigner", "generateSignatureEnvelope", "manifestAnnotations")] := by decide
+
+/-- **The history is irrelevant**: whatever was signed before on the same signer object (other
+key behind the same key id, other key spec, OCI or blob, other format, any number of calls) and
+however the key was selected, the round trip observes the same. -/
+theorem history_irrelevant (C : Crypto) (key : C.Key) (trust : C.Pub → Bool) (nowNs : Int) (i : Input)
+    (h : History) : runWith C key trust nowNs { i with history := h } = runWith C key trust nowNs i := rfl
+
+theorem history_irrelevant_run (i : Input) (h : History) : run { i with history := h } = run i := rfl
+
+theorem history_irrelevant_holds (i : Input) (h : History) (o : Obs) :
+    Holds { i with history := h } o = Holds i o := rfl
+
+/-- a sequence of round trips on shared objects is the sequence of the individual round trips,
+from any object state -/
+theorem runSeq_eq_map (C : Crypto) (key : KeySpec → C.Key) (trust : C.Pub → Bool) (st : ObjState)
+    (xs : List (Int × Input)) :
+    runSeqWith C key trust st xs = xs.map (fun x => runWith C (key x.2.keySpec) trust x.1 x.2) := by
+  induction xs generalizing st with
+  | nil => rfl
+  | cons x rest ih =>
+    obtain ⟨n, i⟩ := x
+    simp only [runSeqWith, stepWith, List.map_cons, ih]
+
+/-- **The sequence position does not matter**: under a policy that trusts every key the objects
+sign with, the observation of a round trip at any position of any sequence, from any object
+state and with any clocks, is `obsSpec` of its own input - so every legal round trip still
+verifies and reports exactly what was signed (`model_holds`). -/
+theorem sequence_position_irrelevant (C : Crypto) (key : KeySpec → C.Key) (trust : C.Pub → Bool)
+    (ht : ∀ k, trust (C.pub (key k)) = true) (st : ObjState) (pre post : List (Int × Input))
+    (nowNs : Int) (i : Input) :
+    (runSeqWith C key trust st (pre ++ (nowNs, i) :: post))[pre.length]? = some (obsSpec i) := by
+  rw [runSeq_eq_map]
+  simp [runWith_eq C (key i.keySpec) trust (ht i.keySpec)]
+
+theorem sequence_holds (C : Crypto) (key : KeySpec → C.Key) (trust : C.Pub → Bool)
+    (ht : ∀ k, trust (C.pub (key k)) = true) (st : ObjState) (xs : List (Int × Input)) :
+    ∀ p ∈ (xs.map (·.2)).zip (runSeqWith C key trust st xs), Holds p.1 p.2 = true := by
+  rw [runSeq_eq_map]
+  intro p hp
+  have hmem : ∃ x ∈ xs, p = (x.2, runWith C (key x.2.keySpec) trust x.1 x.2) := by
+    clear ht
+    induction xs with
+    | nil => simp at hp
+    | cons x rest ih =>
+      simp only [List.map_cons, List.zip_cons_cons, List.mem_cons] at hp
+      rcases hp with hp | hp
+      · exact ⟨x, List.mem_cons_self, hp⟩
+      · obtain ⟨y, hy, hy'⟩ := ih hp
+        exact ⟨y, List.mem_cons_of_mem _ hy, hy'⟩
+  obtain ⟨x, _, rfl⟩ := hmem
+  simp only
+  rw [runWith_eq C (key x.2.keySpec) trust (ht x.2.keySpec), ← run_eq]
+  exact model_holds x.2
+
 /-! ### codec round trips (regenerated tables of plugin/proto/algorithm.go) -/
 
 /-- every key spec survives the plugin wire encoding, which is the name the specification gives it -/
@@ -655,7 +716,9 @@ def exampleBlob : Input :=
     blob := { size := 3, sha256 := "sha256:aa", sha384 := "sha384:bb", sha512 := "sha512:cc" },
     contentMediaType := "text/plain", mediaTypeValid := true,
     metadata := [⟨"commit", "1"⟩, ⟨"buildId", "7"⟩], durationNs := 2000000000, nowFracNs := 999999999,
-    agent := "", verifyMediaType := .same, verifyMetadata := .all, lagSec := 1, exactIdentity := false, byTag := false }
+    agent := "", verifyMediaType := .same, verifyMetadata := .all, lagSec := 1, exactIdentity := false, byTag := false,
+    history := { position := 7, prevKeySpec := some .rsa2048, prevKind := some .oci, prevFormat := some .jws,
+                 keyVia := .rotated } }
 
 /-- a concrete successful round trip (legal, verified, SHA-384 digest for an EC-384 key, 2 s expiry) -/
 example : obsSpec exampleBlob =
